@@ -80,6 +80,8 @@ def run_variant(v) -> dict:
                 err = '%s: %s' % ctx.floor_failures[0]
         except AnalysisError as e:
             viol, err = [], f'{e.rule}: {e.why}'
+        except Exception as e:  # pylint: disable=broad-except
+            viol, err = [], f'internal error: {type(e).__name__}: {e}'
         rules = sorted({o['rule'] for o in viol})
         if v['kind'] == 'break':
             want = v.get('rule')
